@@ -159,3 +159,27 @@ Theorem C12_leaf_dep_hook : forall tord subck t o,
         else omap (fun s2 => Some (dep_order_src false SAME false false false s2)) (subck (dep_bound t) o)).
 Proof. exact dep_order_decides. Qed.
 Print Assumptions C12_leaf_dep_hook.
+
+(* the block of typeorder for a generic alias on the left, regenerated from the source (gen_order_src), is the model's:
+   against another generic alias -- origins first, a parametrised alias below the bare one, different numbers of arguments
+   unrelated, otherwise the merge of the argument-wise comparisons -- and against a plain class (the origin's answer, SAME
+   read as LESS) *)
+Theorem C12_leaf_generic_vs_generic : forall sub hasm chk fresh rec srec o1 a1 o2 a2,
+  ty_eqb (Gen o1 a1) (Gen o2 a2) = false ->
+  tord_body sub hasm chk fresh rec srec (Gen o1 a1) (Gen o2 a2) =
+    match rec (Cls o1) (Cls o2) with
+    | None => None
+    | Some oo =>
+        if order_eqb oo SAME && negb (nonempty a1 && negb (nonempty a2)) && negb (nonempty a2 && negb (nonempty a1))
+           && Nat.eqb (length a1) (length a2)
+        then omap (fun rs => gen_order_src true NONE oo (nonempty a1) (nonempty a2) (length a1) (length a2) (merge rs)) (omapM2 rec a1 a2)
+        else Some (gen_order_src true NONE oo (nonempty a1) (nonempty a2) (length a1) (length a2) NONE)
+    end.
+Proof. exact gen_gen_order_decides. Qed.
+Print Assumptions C12_leaf_generic_vs_generic.
+
+Theorem C12_leaf_generic_vs_class : forall sub hasm chk fresh rec srec o1 a1 d,
+  tord_body sub hasm chk fresh rec srec (Gen o1 a1) (Cls d) =
+    omap (fun ot2 => gen_order_src false ot2 NONE (nonempty a1) false (length a1) 0 NONE) (rec (Cls o1) (Cls d)).
+Proof. exact gen_cls_order_decides. Qed.
+Print Assumptions C12_leaf_generic_vs_class.
